@@ -14,20 +14,28 @@ typedef struct S_class_rml__internal__MemoryPool pool_t;
 #define SLAB 16384
 /* the two slab headers are separate objects; the address model (ptrhooks) places them SLAB bytes apart at BASE: the code computes the
    second slab as (uintptr_t)first + slabSize, which goes through vp_p2i / vp_i2p (a 32 KB object made symex run out of memory) */
+/* Both worlds agree on addresses: a pointer derived from the first header by pointer arithmetic (offset o, even out of bounds)
+   has address BASE+o, one derived from the second BASE+SLAB+o. cbmc: two separate header objects. Native replay: one 32 KB
+   buffer with real 16 KB spacing (two adjacent 128-byte objects would make first+128 alias the second slab natively). */
+#define HS sizeof(blk_t)
+#ifdef VP_NATIVE
+u8 NB[2 * SLAB] __attribute__((aligned(SLAB)));
+#define S0 (NB)
+#define S1 (NB + SLAB)
+u64 BASE;
+u64 vp_p2i(u8* p) { return (p >= NB && p < NB + 2 * SLAB) ? BASE + (u64)(p - NB) : (u64)p; }
+u8* vp_i2p(u64 x) { return (x >= BASE && x - BASE < 2 * SLAB) ? NB + (x - BASE) : (u8*)x; }
+#else
 blk_t H0 __attribute__((aligned(128))), H1 __attribute__((aligned(128)));
 #define S0 ((u8*)&H0)
 #define S1 ((u8*)&H1)
-#define HS sizeof(blk_t)
-tls_t TLS; u8* the_tls;
 u64 BASE;
-u64 vpx_pthread_self(void) { return 1; }
-#ifdef VP_NATIVE
-u64 vp_p2i(u8* p) { return (p >= S0 && p < S0 + HS) ? BASE + (u64)(p - S0) : (p >= S1 && p < S1 + HS) ? BASE + SLAB + (u64)(p - S1) : (u64)p; }
-#else
 u64 vp_p2i(u8* p) { return __CPROVER_POINTER_OBJECT(p) == __CPROVER_POINTER_OBJECT(S0) ? BASE + (u64)__CPROVER_POINTER_OFFSET(p) :
                            __CPROVER_POINTER_OBJECT(p) == __CPROVER_POINTER_OBJECT(S1) ? BASE + SLAB + (u64)__CPROVER_POINTER_OFFSET(p) : (u64)p; }
-#endif
 u8* vp_i2p(u64 x) { return (x >= BASE && x - BASE < HS) ? S0 + (x - BASE) : (x >= BASE + SLAB && x - BASE - SLAB < HS) ? S1 + (x - BASE - SLAB) : (u8*)x; }
+#endif
+tls_t TLS; u8* the_tls;
+u64 vpx_pthread_self(void) { return 1; }
 int n_get, got_num, slab_null, n_new, n_rm, n_put, n_set; int ok[2]; u64 idx[2], rm_idx[2], put_addr[2], set_idx[2]; u8* set_ptr[2];
 struct S_class_rml__internal__BlockI* _ZN3rml8internal7Backend12getSlabBlockEi(struct S_class_rml__internal__Backend* b, u32 num) {
   n_get++; got_num = (int)num;
@@ -35,7 +43,10 @@ struct S_class_rml__internal__BlockI* _ZN3rml8internal7Backend12getSlabBlockEi(s
   return (struct S_class_rml__internal__BlockI*)S0;
 }
 void _ZN3rml8internal7Backend12putSlabBlockEPNS0_6BlockIE(struct S_class_rml__internal__Backend* b, struct S_class_rml__internal__BlockI* bl) {
-  VP_ASSERT(n_put < 2, "more slabs handed back than were obtained"); if (n_put < 2) put_addr[n_put++] = vp_p2i((u8*)bl);
+  VP_ASSERT(n_put < 2, "more slabs handed back than were obtained");
+  u64 a = vp_p2i((u8*)bl);
+  VP_ASSERT(a == BASE || (got_num == 2 && a == BASE + SLAB), "putSlabBlock got an address that is not the start of one of the obtained slabs (wrong stride)");
+  if (n_put < 2) put_addr[n_put++] = a;
 }
 u64 _ZN3rml8internal10BackRefIdx10newBackRefEb(u8 large) {
   VP_ASSERT(large == 0, "slab back reference requested as large-object reference");
